@@ -12,6 +12,13 @@ SetGridObs (incl. None) / SetGridSol / SetTimeObs / Assemble / Solve / Observe /
 cached grid-equality decision as part of the state and the invariant that every observation is the one for the CURRENT
 grids and times (named deviation DevStaleGridFlag must violate it); each emitted behaviour is replayed here on one real
 SteadyStateLinearPDE / TimeDependentLinearPDE object (or on the PDEModel wrapping it) and compared after every call.
+
+Modes of these kinds (field `mode`): "grid" = the above; "param" = the parameter arrays have an IDENTITY in the spec (heap:
+object -> current value; MutateParam = in-place modification; Use = assemble-solve-observe / PDEModel.forward with the array
+itself or a copy; invariants SeqParamCurrent / SeqSameParamSameValue / SeqArgsUntouched; named deviation
+DevAssembleSkipsSameObject); "ginp" = the arrays handed over as grids stay with the caller (MutateGrid in place, Reassign = the
+same array handed over again; deviation DevSetterSkipsSameObject).  Between an in-place modification of a grid array and the
+next hand-over nothing is documented: those observations are recorded (ctx.observations), never compared.
 """
 META = {
     "claimed": True,
@@ -32,7 +39,19 @@ META = {
              "not refresh the cached equality flag' must violate it) on 3-node / 4x4-node grids where the documented quadratic / "
              "bicubic interpolant is the Lagrange polynomial (exact rationals for any solution); every emitted behaviour is replayed "
              "on one real SteadyStateLinearPDE / TimeDependentLinearPDE object, or through PDEModel.forward with the grids of "
-             "model.pde changed between evaluations, comparing getters, assembled system, solution and observation after every call."),
+             "model.pde changed between evaluations, comparing getters, assembled system, solution and observation after every call. "
+             "Arrays with an identity (modes param / ginp of the same state machine): the caller's two parameter arrays P, Q are a heap "
+             "object -> current value; MutateParam modifies one IN PLACE, Use(a) is assemble(a).solve().observe() on the PDE object or "
+             "PDEModel.forward(a) with the array itself or a copy; the object remembers the identity assembled last next to the value "
+             "its system belongs to. TLC checks SeqParamCurrent (system, solution and observation of every Use belong to the CURRENT "
+             "value of the supplied array; the named deviation 'assemble returns early for the parameter object assembled last' must "
+             "violate it), SeqSameParamSameValue (copy = same object; f(th1).f(th2).f(th1): third = first), SeqArgsUntouched (no call "
+             "changes an array of the caller). Grid arrays handed over by reference: MutateGrid in place, Reassign = the setter called "
+             "with the SAME array (time_obs: new object with the same arrays) after which the observation has to be the one for the "
+             "new values (deviation 'setter given the array it holds keeps the cached flag' must violate SeqObserveCurrent). Every "
+             "behaviour is replayed on one real object with two real arrays modified in place; after every call the result is compared "
+             "with TLC's exact value for the parameter of THAT call, with the first result for the same value, and the caller's arrays "
+             "with the spec's heap."),
     "note": ("Bounded sizes (2-4 nodes for solve, 5x5 nodes for observation); interpolation on non-polynomial data at non-coinciding "
              "points is not specified. 'all'/explicit observation needs >= 4 nodes and >= 4 time levels in the code (bicubic spline); "
              "smaller grids are recorded as an observation only. PDEModel with matrix-valued observations (several times) is "
@@ -42,7 +61,12 @@ META = {
              "current grids (the documented way to choose time_obs); grid_sol is only changed while grid_obs is explicit (whether "
              "a grid_obs given as None follows grid_sol is not documented); if a tier emits more behaviours than its budget (3000 "
              "quick / 25000 thorough; not the case for the committed bounds) all behaviours of <= 3 calls and a VERIF_SEED-seeded "
-             "sample of the longer ones are replayed."),
+             "sample of the longer ones are replayed. Identity modes: <= 4 (quick) / 5 (thorough) calls with <= 2 in-place "
+             "modifications of a parameter array, <= 5 / 6 calls with <= 2 in-place modifications of a grid array; an in-place "
+             "modification of the parameter BETWEEN assemble and solve (without a new assemble) and an observation after an in-place "
+             "modification of a grid array that was not handed over again are not documented - not in the model / recorded as "
+             "observation; that a call does not modify the caller's arrays is asserted (the result would not belong to the supplied "
+             "parameter)."),
     "technique": "TLA+ spec (PDE) model-checked with TLC; TLC-emitted problems and exact rational trajectories replayed into cuqi.pde / PDEModel",
 }
 
@@ -457,6 +481,10 @@ def check_sobs(ctx, cuqi, c, idx):
 # ----------------------------------------------------------------------------------------------------------
 # sequences of calls on ONE PDE object (kinds "sseq" / "tseq" of PDE.tla)
 SEQ_ACTIONS = ("set_grid_obs", "set_grid_sol", "set_time_obs", "assemble", "solve", "observe", "forward")
+# modes of the sequence kinds: "grid" (setters, new arrays), "param" (parameter arrays with an identity: in-place modification,
+# the array itself / a copy), "ginp" (grid arrays with an identity: in-place modification, the same array handed over again)
+SEQ_BASE = {"grid": "seq/%s/%s", "param": "seq/inplace/%s/%s", "ginp": "seq/gridinplace/%s/%s"}
+SEQ_CLASS = {"sseq": "steady", "tseq": "time"}
 
 
 def _seq_levels(v):
@@ -471,33 +499,43 @@ def _seq_time_obs_arg(name, times, idx):
     return times.copy()
 
 
-def _seq_build(cuqi, c, form, gs, go, to_name, to, idx):
-    kw = dict(grid_sol=gs.copy(), observation_map=_omap(c["omap"]))
+def _seq_build(cuqi, c, form, gs, go, to_name, to, idx, by_reference=False):
+    """by_reference: the arrays themselves are handed over (mode "ginp": the caller keeps them and modifies them in place)"""
+    kw = dict(grid_sol=gs if by_reference else gs.copy(), observation_map=_omap(c["omap"]))
     if go is not None:
-        kw["grid_obs"] = go.copy()
+        kw["grid_obs"] = go if by_reference else go.copy()
     elif idx % 2:
         kw["grid_obs"] = None
     if c["kind"] == "sseq":
         return cuqi.pde.SteadyStateLinearPDE(form, **kw)
     return cuqi.pde.TimeDependentLinearPDE(form, time_steps=_qv(c["T"]), method=c["method"],
-                                           time_obs=_seq_time_obs_arg(to_name, to, idx), **kw)
+                                           time_obs=to if by_reference else _seq_time_obs_arg(to_name, to, idx), **kw)
 
 
-def _seq_expected_obs(c, e):
+def _seq_expected_obs(c, e, field="obs", times=None):
     """expected value of Observe / Forward: steady - TLC applied the map; time - TLC's exact restriction / interpolant,
-    the elementwise map is applied here (32-bit TLC), one observation time -> vector"""
+    the elementwise map is applied here (32-bit TLC), one observation time -> vector.
+    field="obslive" (mode "ginp", value for the current contents of the arrays): the map is applied here for both classes"""
     if c["kind"] == "sseq":
-        return _qv(e["fwd"])
-    exp = _apply(c["omap"], _qm(e["obs"]))
-    return exp[:, 0] if len(e["to"]) == 1 else exp
+        return _qv(e["fwd"]) if field == "obs" else np.asarray(_apply(c["omap"], _qv(e[field])), dtype=float)
+    exp = _apply(c["omap"], _qm(e[field]))
+    return exp[:, 0] if len(e["to"] if times is None else times) == 1 else exp
+
+
+def _seq_arg(e):
+    """path element of a call: the action, and for the modes with identities the array it is about"""
+    return e["a"] + (":" + e["arg"] if isinstance(e["arg"], str) and e["arg"] and e["a"] in
+                     ("pipeline", "forward", "mutate_param", "mutate_grid", "reassign") else "")
 
 
 def check_seq(ctx, cuqi, c, idx):
     kind, via = c["kind"], c["via"]
+    mode = c.get("mode", "grid")
     steady = kind == "sseq"
     m = c["m"]
-    base = "seq/%s/%s" % (kind, via)
-    ident = (kind, via, c["go0"], c["to0"], c["omap"])
+    base = SEQ_BASE[mode] % ((kind, via) if mode == "grid" else (SEQ_CLASS[kind], via))
+    ident = (kind, via, c["go0"], c["to0"], c["omap"]) + (() if mode == "grid" else (mode,))
+    fac = "seq/%s" % kind if mode == "grid" else "seq/%s/%s" % ({"param": "inplace", "ginp": "gridinplace"}[mode], kind)
     calls = []
     if steady:
         A0, A1, A2 = (np.array(m[k], dtype=float) for k in ("A0", "A1", "A2"))
@@ -514,7 +552,11 @@ def check_seq(ctx, cuqi, c, idx):
     to_name = c["to0"]
     godef = c["go0"] == "none"
     go = None if godef else _qv(new["go"])
-    th = np.array(c["th0"], dtype=float)
+    # mode "param": the two parameter arrays of the user (identity kept for the whole behaviour); the object is first assembled with P
+    heap = {k: np.array(v, dtype=float) for k, v in new.get("heap", {}).items()} if mode == "param" else {}
+    th = heap["P"] if mode == "param" else np.array(c["th0"], dtype=float)
+    # mode "ginp": the arrays handed over as grids stay with the user
+    live = {"gs": gs, "go": go, "to": to} if mode == "ginp" else {}
     sol_exp = _qv(new["sol"]) if steady else _seq_levels(new["sol"])
     path = []
 
@@ -522,9 +564,9 @@ def check_seq(ctx, cuqi, c, idx):
         return "%s/%s/path=%s" % (base, what, ".".join(path) or "new")
 
     # construct - assemble(th0) - solve: the state every behaviour starts from
-    ctx.case(("seq-new",) + ident, facet="seq/%s/new" % kind)
+    ctx.case(("seq-new",) + ident, facet=fac + "/new")
     try:
-        pde = _seq_build(cuqi, c, form, gs, go, to_name, to, idx)
+        pde = _seq_build(cuqi, c, form, gs, go, to_name, to, idx, by_reference=(mode == "ginp"))
         pde.assemble(th)
         sol = np.asarray(_quiet(pde.solve)[0], dtype=float)
     except Exception as e:
@@ -537,6 +579,7 @@ def check_seq(ctx, cuqi, c, idx):
     range_dim = None
     # abstract state before the first call (needed when a new object has to be built for SetTimeObs)
     e_prev_state = {"gs": new["gs"], "go": new["go"], "godef": godef, "par": c["th0"]}
+    first_by_value = {}          # mode "param": parameter value -> (path, first result) ("equal values give equal results")
 
     def get_model(n_out):
         nonlocal model, range_dim
@@ -560,17 +603,53 @@ def check_seq(ctx, cuqi, c, idx):
             good = np.array_equal(got, sol_used if steady else sol_used[:, -1])
         if not good:
             ctx.mismatch(sig(tag), c,
-                         "%s after %s is not the solution restricted to / interpolated on the CURRENT observation grid%s followed by "
+                         "%s after %s is not the solution%s restricted to / interpolated on the CURRENT observation grid%s followed by "
                          "the observation map (grid_sol=%s grid_obs=%s%s)"
-                         % (what, ".".join(path[:-1]) or "construction", "" if steady else " and times",
+                         % (what, ".".join(path[:-1]) or "construction",
+                            " for the CURRENT value %s of the supplied parameter array" % (e["val"]["th"],) if mode == "param" else "",
+                            "" if steady else " and times",
                             [_q(q) for q in e["gs"]], [_q(q) for q in e["go"]], "" if steady else " time_obs=%s" % [_q(q) for q in e["to"]]),
                          exp, got, detail={"step": len(path)})
         return good
 
+    def undefined_obs(e, fn):
+        """mode "ginp", an array handed over as a grid was modified in place and not handed over again: neither documented nor
+        excluded which values the library uses - recorded, never a violation"""
+        slots = "+".join(s for s in ("gs", "go", "to") if e["live"][s] != e[s])
+        try:
+            got = np.asarray(fn(), dtype=float)
+            as_set, as_live = _seq_expected_obs(c, e), _seq_expected_obs(c, e, "obslive", times=e["live"]["to"])
+            a = got.shape == as_set.shape and _close(got, as_set, 1e-9)
+            b = got.shape == as_live.shape and _close(got, as_live, 1e-9)
+            res = "either (equal)" if a and b else "grids as handed over" if a else "current contents of the arrays" if b else "neither"
+        except Exception as ex:
+            res = "raises %s" % type(ex).__name__
+        d = ctx.observations.setdefault("seq_observation_after_inplace_grid_modification_without_new_handover", {})
+        k = "%s/%s modified/%s" % (SEQ_CLASS[kind], slots, res)
+        d[k] = d.get(k, 0) + 1
+
+    def check_value_repeat(e, got, tag):
+        """equal parameter values give equal results (the array itself / a copy; f(th1) . f(th2) . f(th1): third = first)"""
+        key = tuple(e["val"]["th"])
+        got = np.asarray(got, dtype=float)
+        if key not in first_by_value:
+            first_by_value[key] = (".".join(path), got.copy())
+            return
+        where, first = first_by_value[key]
+        if first.shape != got.shape or not _close(got, first, RTOL):
+            ctx.mismatch(sig(tag), c, "the result for the parameter value %s differs from the result of the earlier call %s for the same "
+                         "value" % (list(key), where), first, got, detail={"step": len(path)})
+        else:
+            ctx.observations["seq_repeated_value_bitwise_equal"] = \
+                bool(ctx.observations.get("seq_repeated_value_bitwise_equal", True) and np.array_equal(got, first))
+
     for k, e in enumerate(c["hist"]):
         a = e["a"]
-        path.append(a)
-        ctx.case(("seq",) + ident + tuple((x["a"], json.dumps(x["arg"])) for x in c["hist"][:k + 1]), facet="seq/%s/%s" % (kind, a))
+        path.append(a if mode == "grid" else _seq_arg(e))
+        ctx.case(("seq",) + ident + tuple((x["a"], json.dumps(x["arg"]), json.dumps(x["val"]) if x["a"].startswith("mutate") else "")
+                                          for x in c["hist"][:k + 1]), facet="%s/%s" % (fac, a))
+        defined = e.get("defined", True)
+        passed = None          # the array passed to the call (mode "param") and its contents before the call
         try:
             if a == "set_grid_obs":
                 pde.grid_obs = None if e["arg"] == "none" else _qv(e["val"])
@@ -589,6 +668,23 @@ def check_seq(ctx, cuqi, c, idx):
                     pde.assemble(np.array(prev["par"], dtype=float))
                     model = None
                     ctx.observations["seq_set_time_obs_realised_by"] = "new object with the current grids (no public time_obs setter)"
+            elif a == "mutate_param":
+                heap[e["arg"]][:] = np.array(e["val"], dtype=float)          # in place: same identity, new value
+            elif a == "mutate_grid":
+                live[e["arg"]][:] = _qv(e["val"])                            # in place: the array that was handed over
+            elif a == "reassign":
+                if e["arg"] == "go":
+                    pde.grid_obs = live["go"]                                # the SAME array again
+                elif e["arg"] == "gs":
+                    pde.grid_sol = live["gs"]
+                else:
+                    prop = getattr(type(pde), "time_obs", None)
+                    if isinstance(prop, property) and prop.fset is not None:
+                        pde.grid_sol, pde.grid_obs, pde.time_obs = live["gs"], live["go"], live["to"]
+                    else:      # time_obs has no setter: a new object with the same three arrays
+                        pde = _seq_build(cuqi, c, form, live["gs"], live["go"], None, live["to"], idx, by_reference=True)
+                        pde.assemble(np.array(e_prev_state["par"], dtype=float))
+                        model = None
             elif a == "assemble":
                 th = np.array(e["val"]["th"], dtype=float)
                 del calls[:]
@@ -615,22 +711,76 @@ def check_seq(ctx, cuqi, c, idx):
                 if not steady and any(not np.array_equal(p, th) for p, _ in calls):
                     ctx.mismatch(sig("form_calls"), c, "PDE_form is not assembled with the parameter assembled last", th, [p for p, _ in calls][:4])
             elif a == "observe":
-                if not compare_obs(e, _quiet(lambda: pde.observe(sol)), sol, "observe()", "observe_value"):
+                if not defined:
+                    undefined_obs(e, lambda: _quiet(lambda: pde.observe(sol)))
+                elif not compare_obs(e, _quiet(lambda: pde.observe(sol)), sol, "observe()", "observe_value"):
                     return
+            elif a == "pipeline":
+                # mode "param", on the PDE object: assemble(array) - solve() - observe(solution), compared after each of the three calls
+                src = heap[e["arg"][0]]
+                arg = src.copy() if e["arg"].endswith("copy") else src
+                passed = (arg, arg.copy())
+                now = np.array(e["val"]["th"], dtype=float)          # the spec's CURRENT value of the array
+                del calls[:]
+                pde.assemble(arg)
+                if steady:
+                    # (how often the form is evaluated is not specified; an evaluation at another value is)
+                    if any(not np.array_equal(p, now) for p in calls):
+                        ctx.mismatch(sig("form_calls"), c, "PDE_form is not evaluated at the current value of the supplied parameter array",
+                                     [now], calls)
+                    if not (np.array_equal(np.asarray(pde.diff_op, float), _qm(e["val"]["A"]))
+                            and np.array_equal(np.asarray(pde.rhs, float), _qv(e["val"]["f"]))):
+                        ctx.mismatch(sig("assemble"), c, "after assemble(%s) the assembled operator / right-hand side are not A(theta), "
+                                     "f(theta) for the CURRENT value %s of that array" % (e["arg"], list(now)),
+                                     [_qm(e["val"]["A"]), _qv(e["val"]["f"])], [pde.diff_op, pde.rhs], detail={"step": len(path)})
+                        return
+                del calls[:]
+                out = _quiet(pde.solve)
+                exp = _qv(e["val"]["sol"]) if steady else _seq_levels(e["val"]["sol"])
+                ok = isinstance(out, tuple) and len(out) == 2
+                if ok:
+                    sol = np.asarray(out[0], dtype=float)
+                    ok = sol.shape == exp.shape and _close(sol, exp)
+                if not ok:
+                    ctx.mismatch(sig("solution"), c, "solve() after assemble(%s) is not (solution of the discrete problem for the CURRENT "
+                                 "value %s of that array, info)" % (e["arg"], list(now)), exp,
+                                 out[0] if isinstance(out, tuple) and out else repr(out)[:200], detail={"step": len(path)})
+                    return
+                if not steady and any(not np.array_equal(p, now) for p, _ in calls):
+                    ctx.mismatch(sig("form_calls"), c, "PDE_form is not assembled with the current value of the supplied parameter array",
+                                 now, [p for p, _ in calls][:4])
+                y = _quiet(lambda: pde.observe(sol))
+                if not compare_obs(e, y, sol, "observe(solve()) after assemble(%s)" % e["arg"], "observe_value"):
+                    return
+                check_value_repeat(e, y, "repeat_value")
             elif a == "forward":
-                th = np.array(e["val"]["th"], dtype=float)
                 exp = _seq_expected_obs(c, e)
+                if mode == "param":
+                    src = heap[e["arg"][0]]
+                    th = src.copy() if e["arg"].endswith("copy") else src
+                    passed = (th, th.copy())
+                else:
+                    th = np.array(e["val"]["th"], dtype=float)
                 if exp.ndim == 1:
-                    y = _quiet(lambda: get_model(exp.shape[0]).forward(th))
+                    fn = lambda: _quiet(lambda: get_model(exp.shape[0]).forward(th))
                     what = "PDEModel.forward"
                 else:
                     # several observation times (matrix-valued observation): the three calls PDEModel.forward is documented to
                     # make ('the PDE is assembled, solved and observed'), on the same object
-                    pde.assemble(th)
-                    y = _quiet(lambda: pde.observe(pde.solve()[0]))
+                    def fn():
+                        pde.assemble(th)
+                        return _quiet(lambda: pde.observe(pde.solve()[0]))
                     what = "observe(solve()) after assemble"
-                if not compare_obs(e, y, None, what, "forward_value"):
-                    return
+                if not defined:
+                    undefined_obs(e, fn)
+                else:
+                    y = fn()
+                    if mode == "param":
+                        what = "PDEModel.forward(%s)" % e["arg"]
+                    if not compare_obs(e, y, None, what, "forward_value"):
+                        return
+                    if mode == "param":
+                        check_value_repeat(e, y, "repeat_value")
             else:
                 from cuqiverif.core import MachineryError
                 raise MachineryError("PDE.tla emitted an unknown action %r" % (a,))
@@ -638,9 +788,28 @@ def check_seq(ctx, cuqi, c, idx):
             from cuqiverif.core import MachineryError
             if isinstance(ex, MachineryError):
                 raise
+            if not defined and a in ("observe", "forward"):
+                raise
             ctx.mismatch(sig("raises"), c, "%s raised %r" % (a, ex), detail={"step": k + 1})
             return
         e_prev_state = e
+        # the arrays of the user after every call: only the user's own in-place modifications change them
+        if mode == "param":
+            bad = [o for o in sorted(heap) if not np.array_equal(heap[o], np.array(e["heap"][o], dtype=float))]
+            if passed is not None and not np.array_equal(passed[0], passed[1]):
+                bad.append(e["arg"])
+            if bad:
+                ctx.mismatch(sig("arg_mutated"), c, "%s changed the parameter array(s) %s of the caller" % (a, bad),
+                             {o: e["heap"][o] for o in sorted(heap)}, {o: heap[o].tolist() for o in sorted(heap)}, detail={"step": k + 1})
+                return
+        if mode == "ginp":
+            bad = [s_ for s_ in ("gs", "go", "to") if live[s_] is not None and not np.array_equal(live[s_], _qv(e["live"][s_]))]
+            if bad:
+                ctx.mismatch(sig("grid_arg_mutated"), c, "%s changed the grid array(s) %s of the caller" % (a, bad),
+                             {s_: [_q(q) for q in e["live"][s_]] for s_ in bad}, {s_: live[s_].tolist() for s_ in bad}, detail={"step": k + 1})
+                return
+            if not defined:          # which values the getters show for a modified array is not specified either
+                continue
         # the public getters after every call
         g_sol = pde.grid_sol
         if g_sol is None or not np.array_equal(np.asarray(g_sol, dtype=float), _qv(e["gs"])):
@@ -656,10 +825,41 @@ def check_seq(ctx, cuqi, c, idx):
                 "grid_sol" if np.array_equal(np.asarray(g_obs, dtype=float), _qv(e["gs"])) else "another grid")
 
 
+def _seq_has(c, pred):
+    """some window of consecutive calls of the behaviour satisfies pred (a function of the window; its arity = window length)"""
+    n = pred.__code__.co_argcount
+    h = c["hist"]
+    return any(pred(*h[i:i + n]) for i in range(len(h) - n + 1))
+
+
+_USE = ("pipeline", "forward")
+# what the modes "param" / "ginp" have to contain for every class and every way of calling (vacuity guards)
+_SEQ_PATTERNS = {
+    # the array itself - modified in place - the array itself again
+    "use(X).mutate(X).use(X)": lambda a, b, d: (a["a"] in _USE and d["a"] in _USE and b["a"] == "mutate_param" and
+                                                a["arg"] == b["arg"] == d["arg"] and a["val"]["th"] != d["val"]["th"]),
+    # modified in place first (the object was assembled with P at construction)
+    "mutate(P).use(P)": lambda a, b: a["a"] == "mutate_param" and b["a"] in _USE and a["arg"] == b["arg"] == "P",
+    # f(th1) . f(th2) . f(th1)
+    "use(th1).use(th2).use(th1)": lambda a, b, d: (all(x["a"] in _USE for x in (a, b, d)) and a["val"]["th"] == d["val"]["th"] and
+                                                   a["val"]["th"] != b["val"]["th"]),
+    # the array itself, then a copy of it (and the other way round)
+    "use(X).use(copy of X)": lambda a, b: a["a"] in _USE and b["a"] in _USE and b["arg"] == a["arg"] + "copy",
+    "use(copy of X).use(X)": lambda a, b: a["a"] in _USE and b["a"] in _USE and a["arg"] == b["arg"] + "copy",
+    # another array is used in between: use(X) . use(Y) . mutate(X) . use(X)
+    "use(X).use(Y).mutate(X).use(X)": lambda a, b, d, e: (a["a"] in _USE and b["a"] in _USE and e["a"] in _USE and d["a"] == "mutate_param"
+                                                          and a["arg"] == d["arg"] == e["arg"] and b["arg"][0] != a["arg"][0]),
+    # a grid array modified in place and handed over again, then observed (specified); observed in between (recorded only)
+    "mutate_grid(s).reassign(s).observe": lambda a, b, d: (a["a"] == "mutate_grid" and b["a"] == "reassign" and a["arg"] == b["arg"]
+                                                           and d["a"] in ("observe", "forward") and d["defined"]),
+    "mutate_grid(s).observe[unspecified]": lambda a, b: a["a"] == "mutate_grid" and b["a"] in ("observe", "forward") and not b["defined"],
+}
+
+
 def _seq_select(ctx, seqs):
     """quick / thorough budget: every behaviour of at most 3 calls (observe - set - observe for each setter and value), and
     a VERIF_SEED-seeded sample of the longer ones if there are more than the budget"""
-    cap = 3000 if ctx.tier == "quick" else 25000
+    cap = 6000 if ctx.tier == "quick" else 60000
     if len(seqs) <= cap:
         return seqs, False
     short = [c for c in seqs if len(c["hist"]) <= 3]
@@ -703,16 +903,17 @@ def run(ctx):
     import concurrent.futures, os
     cuqi = _pde_mod()
     # named deviation -> the invariant it has to violate on the model
-    devs = {"OperatorAtOldTime": "DiscreteEquation", "DtFromNextInterval": "DiscreteEquation", "StaleGridFlag": "SeqObserveCurrent"}
+    devs = {"OperatorAtOldTime": "DiscreteEquation", "DtFromNextInterval": "DiscreteEquation", "StaleGridFlag": "SeqObserveCurrent",
+            "AssembleSkipsSameObject": "SeqParamCurrent", "SetterSkipsSameObject": "SeqObserveCurrent"}
     wd = lambda label: os.path.join(_tlc.WORK, "PDE-c18-%s-%d" % (label, os.getpid()))
     # the (small) deviation runs are started together with the main run (JVM starts in sequence cost minutes on a loaded machine)
-    pool = concurrent.futures.ThreadPoolExecutor(max_workers=3)
+    pool = concurrent.futures.ThreadPoolExecutor(max_workers=len(devs))
     fut = {dev: pool.submit(ctx.tlc, "PDE", cfg="PDE.dev_%s.cfg" % dev, workers=2, timeout=2400, expect_violation=True,
                             workdir=wd(dev)) for dev in devs}
     try:
         res = ctx.tlc("PDE", cfg="PDE.%s.cfg" % ctx.tier, workers=16, timeout=3600,
                       require_actions=["Start", "Step", "SetGridObs", "SetGridSol", "SetTimeObs", "Assemble", "Solve", "Observe",
-                                       "Forward"], workdir=wd("main"))
+                                       "Forward", "MutateParam", "Use", "MutateGrid", "Reassign"], workdir=wd("main"))
     except BaseException:
         concurrent.futures.wait(list(fut.values()))
         for label in ["main"] + list(devs):                       # nothing of a failed run stays under .work
@@ -736,11 +937,16 @@ def run(ctx):
     seqs = [c for c in cases if c["kind"] in ("sseq", "tseq")]
     for k in ("sseq", "tseq"):
         for via in ("pde", "model"):
-            seen = set(e["a"] for c in seqs if c["kind"] == k and c["via"] == via for e in c["hist"])
+            mine = [c for c in seqs if c["kind"] == k and c["via"] == via]
+            seen = set(e["a"] for c in mine if c.get("mode", "grid") == "grid" for e in c["hist"])
             need = set(SEQ_ACTIONS) - ({"set_time_obs"} if k == "sseq" else set()) - \
                 ({"forward"} if via == "pde" else {"assemble", "solve", "observe"})
             if need - seen:
                 raise MachineryError("vacuous model: no %s/%s behaviour with the call(s) %r" % (k, via, sorted(need - seen)))
+            missing = [name for name, pred in _SEQ_PATTERNS.items()
+                       if not any(_seq_has(c, pred) for c in mine if c.get("mode") == ("ginp" if "grid" in name else "param"))]
+            if missing:
+                raise MachineryError("vacuous model: no %s/%s behaviour with the pattern(s) %r" % (k, via, missing))
     chosen, sampled = _seq_select(ctx, seqs)
     cases = [c for c in cases if c["kind"] not in ("sseq", "tseq")] + chosen
     counts = _dispatch(ctx, cuqi, cases)
@@ -756,10 +962,16 @@ def run(ctx):
         ex = [c for c in chosen if c["kind"] == k and [e["a"] for e in c["hist"]] == ["observe", "set_grid_obs", "observe"]]
         if ex:
             ctx.sample({"case": {kk: vv for kk, vv in ex[0].items() if kk != "m"}})
+    ex = [c for c in chosen if c["kind"] == "sseq" and c.get("mode") == "param" and _seq_has(c, _SEQ_PATTERNS["use(X).mutate(X).use(X)"])]
+    if ex:
+        ctx.sample({"case": {kk: vv for kk, vv in ex[0].items() if kk != "m"}}, limit=7)
+    ctx.observe("seq_behaviours_by_mode", {md: sum(1 for c in chosen if c.get("mode", "grid") == md) for md in ("grid", "param", "ginp")})
     ctx.rule = ("one case per problem emitted by TLC from PDE.tla (steady: matrices, theta, solver return shape, observation grid/map with "
                 "exact A, f, u, forward value and Jacobian; time: matrices, non-uniform grid, theta, method, observation mode with the "
                 "exact trajectory and the assembly times; tobs/sobs: polynomial data with exact observed values; sseq/tseq: one "
-                "behaviour = one sequence of <= SeqDepth calls on one PDE object / PDEModel with the exact value of every call); "
+                "behaviour = one sequence of <= SeqDepth calls on one PDE object / PDEModel with the exact value of every call, in the "
+                "modes grid (setters) / param (parameter arrays modified in place, itself or copy) / ginp (grid arrays modified in place "
+                "and handed over again)); "
                 "distinct = problem x comparison group (solve, observe, model forward, gradient variant; sequences: every prefix)")
     ctx.exhaustive = not sampled
     ctx.traces = counts.get("time", 0) + len(chosen)
